@@ -111,3 +111,40 @@ bdd_harness!(c13_bdd_and, c::and_codegen::OUTPUT_CIRCUITS, |a, b| a & b, 64, 32)
 bdd_harness!(c13_bdd_or, c::or_codegen::OUTPUT_CIRCUITS, |a, b| a | b, 64, 32);
 bdd_harness!(c13_bdd_xor, c::xor_codegen::OUTPUT_CIRCUITS, |a, b| a ^ b, 64, 32);
 bdd_harness!(c13_bdd_identity, c::identity_codgen::OUTPUT_CIRCUITS, |a, _b| a, 32, 32);
+
+// ------------------------------------------------------------------------------------------------
+// C15 — bit addressing of packed encrypted integers: UnsignedInteger::bit_index is a bijection of 0..BITS onto 0..BITS,
+// with the documented byte isolation (bits of byte k land in residue class k modulo BYTES).  Loop-free, complete.
+// ------------------------------------------------------------------------------------------------
+use super::UnsignedInteger;
+
+fn bit_index_laws<T: UnsignedInteger>() {
+    let bits = T::BITS as usize;
+    let bytes = bits / 8;
+    assert!(1usize << T::LOG_BITS == bits && 1usize << T::LOG_BYTES == bytes && T::LOG_BYTES_MASK == bytes - 1, "C15:derived constants");
+    let i: usize = kani::any();
+    let k: usize = kani::any();
+    kani::assume(i < bits && k < bits);
+    let j = T::bit_index(i);
+    assert!(j < bits, "C15:bit_index in range");
+    assert!(j & T::LOG_BYTES_MASK == i >> 3, "C15:byte k occupies residue class k mod BYTES");
+    assert!(j >> T::LOG_BYTES == i & 7, "C15:bit-in-byte is the quotient");
+    // inverse formula => bijection
+    let back = ((j & T::LOG_BYTES_MASK) << 3) | (j >> T::LOG_BYTES);
+    assert!(back == i, "C15:inverse formula");
+    if T::bit_index(k) == j {
+        assert!(k == i, "C15:injective");
+    }
+    kani::cover!(i == bits - 1, "C15:reachable");
+}
+
+#[kani::proof]
+fn c15_bit_index_u8() { bit_index_laws::<u8>(); }
+#[kani::proof]
+fn c15_bit_index_u16() { bit_index_laws::<u16>(); }
+#[kani::proof]
+fn c15_bit_index_u32() { bit_index_laws::<u32>(); }
+#[kani::proof]
+fn c15_bit_index_u64() { bit_index_laws::<u64>(); }
+#[kani::proof]
+fn c15_bit_index_u128() { bit_index_laws::<u128>(); }
